@@ -87,7 +87,10 @@ def queries(seed, nfr):
 
 def run_unit(unit, acc):
     if unit.get("dup") is not None:
-        check_case(dict(dup=unit["dup"], queries=[-60000, 0, 20000, 50000, 60000, 100000, 130000, 175000, 200000, 230000, 250000, 300000], tols=TOLS), acc)
+        qs = [-60000, 0, 20000, 50000, 60000, 100000, 130000, 175000, 200000, 230000, 250000, 300000]
+        if unit["dup"] < 2:   # lists spanning more than 2**31 us: queries around every frame of the late recordings
+            qs = sorted({t_ + d_ for t_ in DUP_TIMES[unit["dup"]] if t_ > 2 ** 30 for d_ in (-43000, 0, 43000, 60000)} | {2 ** 31 + 5, 2 ** 32 + 3000, 1000000 + 43000})
+        check_case(dict(dup=unit["dup"], queries=qs, tols=TOLS), acc)
         return
     for pat in unit["pats"]:
         check_case(dict(nfr=unit["nfr"], frame=unit["frame"], neg=unit["neg"], pres=pat, queries=queries(_SEED[0], unit["nfr"]), tols=TOLS, far=bool(unit.get("far")), relabel=bool(unit.get("relabel")), mix=unit.get("mix", 0), smallstep=bool(unit.get("smallstep")),
@@ -188,7 +191,10 @@ def _snap(frames):
     return [(id(f), f.unix_time, [(id(o), o.uuid, tuple(o.state.position), tuple(o.state.orientation.q), str(o.frame_id)) for o in f.objects]) for f in frames]
 
 
-DUP_TIMES = [[0, 0, 100000, 200000], [0, 100000, 100000, 250000], [0, 100000, 250000, 250000], [0, 0, 0, 100000], [50000, 50000]]
+_B0 = 2 ** 32 + 960000
+DUP_TIMES = [[i_ * 100000 for i_ in range(11)] + [_B0 + j_ * 100000 for j_ in range(3)],
+             [0, 100000, 2 ** 31 + 150000, 2 ** 31 + 250000, 2 ** 33 + 70000],
+             [0, 0, 100000, 200000], [0, 100000, 100000, 250000], [0, 100000, 250000, 250000], [0, 0, 0, 100000], [50000, 50000]]
 
 
 def _check_dup(case, acc):
